@@ -202,7 +202,7 @@ func c01Writers(c *Ctx, r *Report) {
 				}
 				n++
 				fld := fieldVar(fa).Name()
-				ok2 := allowed[fld][f.Name()] && f.Pkg != nil && f.Pkg.Pkg.Path() == modPath
+				ok2 := actsFor(c, f, allowed[fld], modPath)
 				if ok2 && strings.HasSuffix(fld, "Present") {
 					// flags may only be raised, never cleared
 					k, isK := x.Val.(*ssa.Const)
@@ -214,7 +214,7 @@ func c01Writers(c *Ctx, r *Report) {
 					if ld, ok := x.Map.(*ssa.UnOp); ok {
 						if fa, ok := ld.X.(*ssa.FieldAddr); ok && isRS(fa.X.Type()) {
 							n++
-							r.Check(allowed["Results"][f.Name()], "results-writers", fname(f)+"|Results[]", x.Pos(), "", "Results map modified outside the execute* functions")
+							r.Check(actsFor(c, f, allowed["Results"], modPath), "results-writers", fname(f)+"|Results[]", x.Pos(), "", "Results map modified outside the execute* functions")
 						}
 					}
 				}
@@ -230,7 +230,7 @@ func c01Writers(c *Ctx, r *Report) {
 			}
 		})
 	}
-	r.Floor("ResultSet field writes", 16, n)
+	r.Floor("ResultSet field writes", 7, n)
 }
 
 func c01Statuses(c *Ctx, r *Report, cs *Census) {
